@@ -55,6 +55,7 @@ pub fn predict_and_check<'p>(
     rng: &mut Rng,
     variant: &str,
     start_tags: bool,
+    warm: Option<&'p Predictor>,
 ) -> Option<(Sentence<'static, 'p>, Vec<i64>)> {
     let n = text.len();
     let refs = ref_scores(&case.model, text);
@@ -71,8 +72,16 @@ pub fn predict_and_check<'p>(
             }
         }
     }
+    let warm_fill = rng.chance(1, 2);
     let built = guard(|| {
         let mut s = build_sentence(&rs);
+        if let Some(w) = warm {
+            // the same sentence object was analysed by another tag predictor just before
+            w.predict(&mut s);
+            if warm_fill {
+                s.fill_tags();
+            }
+        }
         pred.predict(&mut s);
         s
     });
@@ -210,13 +219,13 @@ pub fn run_c01(ctx: &mut Ctx, from: u64, to: u64, tiny: bool) {
         let p_tag = if case.model.tag_models.is_empty() { None } else { make_predictor(ctx, "C01", &case, true) };
         let mut occ = 0;
         for text in &case.texts {
-            let Some((_s, refs)) = predict_and_check(ctx, "C01", &case, text, &p_plain, &mut rng, "predict_tags=false", true)
+            let Some((_s, refs)) = predict_and_check(ctx, "C01", &case, text, &p_plain, &mut rng, "predict_tags=false", true, None)
             else {
                 continue;
             };
             occ += count_score_facts(ctx, &case.model, text, &refs);
             if let Some(pt) = p_tag.as_ref() {
-                let _ = predict_and_check(ctx, "C01", &case, text, pt, &mut rng, "predict_tags=true", true);
+                let _ = predict_and_check(ctx, "C01", &case, text, pt, &mut rng, "predict_tags=true", true, None);
             }
         }
         if occ > 0 {
@@ -232,6 +241,36 @@ pub fn run_c01(ctx: &mut Ctx, from: u64, to: u64, tiny: bool) {
             ]));
         }
     }
+}
+
+/// A different model over the same texts: some patterns dropped, others added (pattern ids shift,
+/// and the other model matches at positions where this one does not), tag models reordered.
+fn perturb(m: &ModelData, texts: &[Vec<char>], rng: &mut Rng) -> ModelData {
+    let mut p = m.clone();
+    p.char_ngram_model.retain(|_| rng.chance(1, 2));
+    p.type_ngram_model.retain(|_| rng.chance(1, 2));
+    p.dict_model.retain(|_| rng.chance(1, 2));
+    for t in p.tag_models.iter_mut() {
+        t.char_ngram_model.retain(|_| rng.chance(2, 3));
+        t.type_ngram_model.retain(|_| rng.chance(2, 3));
+    }
+    for _ in 0..rng.urange(1, 6) {
+        let t: &Vec<char> = rng.pick(texts);
+        let n = rng.urange(1, t.len().min(2 * usize::from(m.char_window_size)).min(3));
+        let s = rng.below(t.len() - n + 1);
+        let g: String = t[s..s + n].iter().collect();
+        if !p.char_ngram_model.iter().any(|d| d.ngram == g) {
+            p.char_ngram_model.push(vgen::mirror::NgramData { ngram: g, weights: vec![0; 2 * usize::from(m.char_window_size) - n + 1] });
+        }
+        let n = rng.urange(1, t.len().min(2 * usize::from(m.type_window_size)).min(3));
+        let s = rng.below(t.len() - n + 1);
+        let g: Vec<u8> = ctypes(&t[s..s + n]);
+        if !p.type_ngram_model.iter().any(|d| d.ngram == g) {
+            p.type_ngram_model.push(vgen::mirror::NgramData { ngram: g, weights: vec![0; 2 * usize::from(m.type_window_size) - n + 1] });
+        }
+    }
+    p.tag_models.reverse();
+    p
 }
 
 /// Forces boundaries so that occurrences of modelled tokens become tokens.
@@ -362,10 +401,14 @@ pub fn run_c06(ctx: &mut Ctx, from: u64, to: u64, tiny: bool) {
         let Some(mut pred) = make_predictor(ctx, "C06", &case, true) else { continue };
         let stored = rng.chance(2, 3);
         pred.store_tag_scores(stored);
+        // a second, different tag predictor whose patterns also occur in these texts
+        let warm_pred = if rng.chance(1, 3) { new_predictor(&perturb(m, &case.texts, &mut rng), true).ok() } else { None };
+        ctx.flag("cases_with_previous_predictor_on_same_sentence", warm_pred.is_some());
         let mut modelled = 0u64;
         for text in &case.texts {
             let before = ctx.evals;
-            let Some((mut s, _)) = predict_and_check(ctx, "C06", &case, text, &pred, &mut rng, "tag predictor", false) else {
+            let warm = warm_pred.as_ref();
+            let Some((mut s, _)) = predict_and_check(ctx, "C06", &case, text, &pred, &mut rng, if warm.is_some() { "tag predictor after another predictor on the same sentence" } else { "tag predictor" }, false, warm) else {
                 continue;
             };
             let _ = before;
@@ -471,8 +514,8 @@ pub fn run_c14(ctx: &mut Ctx, from: u64, to: u64, tiny: bool) {
         }
         let mut occ = 0;
         for text in &case.texts {
-            let Some((mut s1, refs)) = predict_and_check(ctx, "C14", &case, text, &p, &mut rng, "original", false) else { continue };
-            let Some((mut s2, _)) = predict_and_check(ctx, "C14", &case, text, &q, &mut rng, "deserialised", false) else { continue };
+            let Some((mut s1, refs)) = predict_and_check(ctx, "C14", &case, text, &p, &mut rng, "original", false, None) else { continue };
+            let Some((mut s2, _)) = predict_and_check(ctx, "C14", &case, text, &q, &mut rng, "deserialised", false, None) else { continue };
             occ += count_score_facts(ctx, m, text, &refs);
             let r = guard(|| {
                 if tags {
